@@ -92,6 +92,12 @@ PROPS = {
         'level': 'proof',
         'design_ref': 'DESIGN.md §6 C16',
     },
+    'C17': {
+        'verus': ['interp_api', 'statements', 'expressions'],
+        'kani': [],
+        'level': 'proof',
+        'design_ref': 'DESIGN.md §6 C17',
+    },
     'C18': {
         'verus': [],
         'kani': ['rng'],
@@ -121,6 +127,7 @@ UNDECIDED = {
     'C10': ["the RUN arm of maybe_process_command is outside Verus (fmt in sibling arms); Kani checks it for an empty stored program only (pending reply, state, tracing flag); fresh Variables/Arrays are two assignments of Default::default(), read not proved"],
     'C11': ["end_loop returning NEXT WITHOUT FOR on a missing loop; next_data_element rebuilding the cursor (closure) - read, not proved"],
     'C16': ["end_loop re-push (f64 arithmetic) - read, not proved", "ValueArray / DimArray internals enter the Arrays wrapper as assumed contracts, themselves checked by Kani (bounded)"],
+    'C17': ["the relational claim (identical output/inputs/errors/final state in all four configurations) is concluded from three facts, not proved as a 2-safety property: the switches are read at exactly the censused sites, each site only appends Warning / Trace records, and no statement or expression writes a switch", "that the trace records name exactly the lines execution passes through, and that a warning is issued exactly for never-assigned variables / missing arrays, are not decided (the guard conditions are read, not specified)", "PRINT and user-defined function calls are assumed contracts (they promise not to write the switches)", "TRACE / NOTRACE commands live in maybe_process_command (outside Verus; census only)"],
     'C18': [
         "the call path from the RND( token in an expression to Rng::rnd (expression.rs evaluate_function_call) is assumed",
         "Interpreter::randomize / JsInterpreter::randomize are one-line delegations, read not proved",
